@@ -56,10 +56,21 @@ def main():
     ck = Check(pid, tier, seed)
     try:
         mod.run(ck)
-    except Exception:
+    except (MemoryError, OSError):
         traceback.print_exc()
         print(f"{pid}: infrastructure error", flush=True)
         return 2
+    except Exception as e:
+        # The harness relies on behaviour of laspy that holds on the pinned tree (shapes, types, which
+        # calls raise). If the code under test no longer behaves that way the run cannot be completed
+        # and the property is no longer shown to hold: that is a broken correspondence obligation, reported
+        # with whatever failing inputs were found before the exception (or no-failing-input-found).
+        traceback.print_exc()
+        tb = traceback.extract_tb(e.__traceback__)
+        where = next((f"{os.path.relpath(fr.filename, VERIF)}:{fr.lineno}" for fr in reversed(tb) if fr.filename.startswith(VERIF)), "?")
+        inner = tb[-1]
+        ck.oblige("harness run completes against the current tree", "correspondence", False,
+                  f"{type(e).__name__}: {str(e)[:300]} (raised at {os.path.basename(inner.filename)}:{inner.lineno}, harness frame {where})")
     return ck.finish()
 
 
